@@ -81,6 +81,8 @@ class ServerWorld:
         self.step_events = []           # (seq, request tag, time before, time after)
         self.step_calls = {}            # request tag -> number of run_step calls so far
         self.raise_at = {}              # request tag -> call index at which run_step raises
+        self.raise_where = {}           # request tag -> "before" (default: before the step starts) | "inside" (in the runner, mid-step)
+        self._raise_inside = False
         self.req_of_task = {}           # task id -> request tag (scheduler runs)
         self.cur_req = None             # request tag (sequential runs)
         self.sched = None
@@ -96,12 +98,25 @@ class ServerWorld:
         self._cm = patches.installed(clock=self.clock, uuid=self.uuid, fs=self.fs,
                                      threads=self.thread_mode)
         self._cm.__enter__()
+        # fault point inside a step: the SD runner raises when armed (off unless a case arms it)
+        import BPTK_Py.scenariorunners.sd_runner as sdr
+        world = self
+        self._sdr = sdr
+        self._orig_rss = sdr.SdRunner.run_scenario_step
+
+        def rss(runner_self, *a, **k):
+            if world._raise_inside:
+                world._raise_inside = False
+                raise RuntimeError("injected failure inside the step")
+            return world._orig_rss(runner_self, *a, **k)
+        sdr.SdRunner.run_scenario_step = rss
         return self
 
     def __exit__(self, *a):
         try:
             self.crash()
         finally:
+            self._sdr.SdRunner.run_scenario_step = self._orig_rss
             self._cm.__exit__(None, None, None)
         return False
 
@@ -119,9 +134,15 @@ class ServerWorld:
                 before = self.session_state["step"] if self.session_state else None
                 if world.raise_at.get(tag) == n:
                     world.result.fault("step_exception")
-                    world.log.add("fault", "step_exception", tag, n)
-                    raise RuntimeError("injected step failure")
-                r = super().run_step(settings=settings, flat=flat)
+                    world.log.add("fault", "step_exception", tag, n, world.raise_where.get(tag, "before"))
+                    if world.raise_where.get(tag, "before") == "inside":
+                        world._raise_inside = True      # the runner fails in the middle of this step
+                    else:
+                        raise RuntimeError("injected step failure")
+                try:
+                    r = super().run_step(settings=settings, flat=flat)
+                finally:
+                    world._raise_inside = False
                 after = self.session_state["step"] if self.session_state else None
                 advanced = isinstance(r, dict) and "msg" not in r if r is not None else False
                 seq = world.log.add("stepped", tag, before, after, bool(advanced))
